@@ -4,7 +4,7 @@ import os
 import subprocess
 import sys
 
-from . import extract, smt, symex, builtins_spec
+from . import extract, smt, symex, builtins_spec, stdlib_spec
 
 HERE = os.path.dirname(os.path.abspath(__file__))
 VENV_PY = os.environ.get("PYVC_PYTHON", "/venv/bin/python")
@@ -79,10 +79,13 @@ def make_engine(repo="/repo", threads=True, numpy=False, timeout_ms=10000, seed=
     crosscheck(P, R)
     solver = smt.Solver(timeout_ms=timeout_ms, seed=seed)
     eng = symex.Engine(P, R, solver, {"threads": threads, "numpy": numpy})
-    builtins_spec.Intrinsics(eng)
+    stdlib_spec.FullIntrinsics(eng)
     eng.init_type_facts()
+    sys.path.insert(0, os.path.dirname(HERE))
+    from . import obligations
+    eng.axiom_fn = obligations.closure_axioms
+    obligations.set_synced_type_ids([c for c, ci in P.classes.items() if any(k.name == "SyncedCollection" for k in ci.mro)])
     if register:
-        sys.path.insert(0, os.path.dirname(HERE))
         from contracts import core
         core.register(eng)
     return eng
